@@ -670,9 +670,7 @@ Lemma pap_roundtrip_nonvacuous :
   lenN [117; 115; 101; 114] < 256 /\ lenN [112; 119] < 256 /\
   pap_build [117; 115; 101; 114] [112; 119] = [4; 117; 115; 101; 114; 2; 112; 119].
 Proof. vm_compute. repeat split. Qed.
-Lemma fuel_nonvacuous :
-  (length [12; 0; 0; 9; 0; 4; 1; 2; 3; 4] < 11)%nat /\ 4 <= 34.
-Proof. split; [vm_compute; lia|lia]. Qed.
+
 
 (* ---------------- bounded worker pool on the receive path ---------------- *)
 Lemma pool_run_cons b cap s e r :
